@@ -728,7 +728,7 @@ pub const DEF: PropertyDef = PropertyDef {
            the next offset by construction; built through SourceMapIndex::new or decoded from JSON with shuffled sections. Oracles: a \
            reference flattener (token multiset, source-name set, first-seen contents, ignored names, names, file, error on unresolved \
            sections), a section-wise reference lookup, and index-lookup == flattened-lookup. Queries: every offset +-1, column 0 / far right, \
-           following lines, every flattened token position +-1, random. Non-trivial = >= 2 sections, one with a non-zero column offset and \
+           following lines, every flattened token position +-1, random. living_index: the same judgement after changes made below (nested) sections through get_section_mut / get_sourcemap_mut / set_sourcemap and after clone; flatten_and_rewrite(default) == flatten + rewrite. Non-trivial = >= 2 sections, one with a non-zero column offset and \
            tokens on its first and a later line, and a successful query right of the offset on its first line",
     assumptions: &[
         "token order among equal generated positions is not compared; lookups on tied positions accept any member of the tie set",
